@@ -313,7 +313,20 @@ def skeleton(rng):
     c = rng.choice(COMPS)
     cb, one = rng.random() < 0.7, False
     kind = rng.choice(["replica-sub-during-reregistration", "migration", "agent-rejoins", "migration-with-replicas",
-                       "several-callbacks-on-one-item", "replica-dropped-then-held-again"])
+                       "several-callbacks-on-one-item", "replica-dropped-then-held-again", "replica-dropped-while-computation-migrates"])
+    if kind == "replica-dropped-while-computation-migrates":
+        # a repair: the host of c has left (c unregistered), a candidate drops its replica of c while c is registered nowhere,
+        # then the new host registers c; a third instance watches the replicas of c
+        ops = [("register_computation", a, c), ("subscribe_computation", b, c, False, False), ("subscribe_computation", c3, c, False, False),
+               ("drain",), ("register_replica", b, c), ("subscribe_replica", c3, c, cb, one), ("drain",),
+               ("unregister_computation", a, c)]
+        if rng.random() < 0.6:
+            ops.append(("drain",))
+        ops.append(("unregister_replica", b, c))
+        if rng.random() < 0.6:
+            ops.append(("drain",))
+        ops += [("register_computation", rng.choice([a, c3]), c), ("drain",)]
+        return kind, [list(o) for o in ops]
     if kind == "replica-dropped-then-held-again":
         # what a repair does: a candidate drops its replica of the migrating computation, the new host then replicates it
         # again, possibly on the same agent; deliveries in between are random
